@@ -31,6 +31,14 @@ fn chroma_like(space: Space, c: &V3) -> Option<f64> {
     })
 }
 
+/// model Oklab lightness of the grey `g` of an RGB space (cube root of the linear value)
+fn g_to_l(src: Space, g: f64) -> f64 {
+    match src {
+        Space::Rgb(st) => st.tf.decode(g).cbrt(),
+        _ => g,
+    }
+}
+
 fn whites_and_neutrals(ctx: &Ctx, report: &mut Report) {
     let mname = "white_and_neutrals";
     if !ctx.enabled(mname) {
@@ -43,6 +51,8 @@ fn whites_and_neutrals(ctx: &Ctx, report: &mut Report) {
     );
     let types = ct::types();
     let pairs = ct::pairs();
+    let oklab64 = types.iter().position(|t| t.name == "Oklab/f64").unwrap();
+    let oklab32 = types.iter().position(|t| t.name == "Oklab/f32").unwrap();
     let replay = ctx.replay.as_ref().filter(|r| r.monitor == mname).map(|r| (r.inst.clone(), r.input["grey"].as_f64().unwrap_or(1.0)));
     let mut rng = ctx.rng(mname, 0);
     let mut greys: Vec<f64> = (0..=255).map(|k| k as f64 / 255.0).collect();
@@ -77,6 +87,13 @@ fn whites_and_neutrals(ctx: &Ctx, report: &mut Report) {
             let x = [g, g, g];
             let y = ct::convert(i, j, x).unwrap();
             let inp = || json!({"grey": g, "rgb": fvec(&x)});
+            // root cause of the recorded finding: the Oklab chroma of this grey is ~3.9e-5 L instead of 0; Okhsl/Okhsv/Okhwb
+            // divide it by a maximum chroma that vanishes towards white and black, so the class is decided on Oklab itself
+            let mismatch = ok_via_xyz && {
+                let lab = ct::convert(i, if is32 { oklab32 } else { oklab64 }, x).unwrap();
+                lab[1].hypot(lab[2]) <= 1e-4 && (lab[0] - g_to_l(src, g)).abs() <= 1e-4
+            };
+            let amplified = matches!(dst, Space::Okhsl | Space::Okhsv | Space::Okhwb);
             m.eval();
             if g == 1.0 {
                 // white
@@ -96,7 +113,7 @@ fn whites_and_neutrals(ctx: &Ctx, report: &mut Report) {
                     _ => false,
                 };
                 if bad {
-                    let class = if ok_via_xyz && chroma_like(dst, &y).unwrap_or(1.0).max((y[0] - 1.0).abs()) <= 5e-4 { "white_not_white:oklab_xyz_matrix_white_mismatch" } else { "white_not_white" };
+                    let class = if mismatch && chroma_like(dst, &y).unwrap_or(1.0).max((y[0] - 1.0).abs()) <= 5e-4 { "white_not_white:oklab_xyz_matrix_white_mismatch" } else { "white_not_white" };
                     m.violate(&inst, class, inp(), fvec(&y), json!({"white_point_xyz": fvec(&white), "target": format!("{:?}", dst)}), "");
                 }
             }
@@ -111,7 +128,7 @@ fn whites_and_neutrals(ctx: &Ctx, report: &mut Report) {
                     _ => 1.0,
                 };
                 if !(ch * weight <= tol_neutral) && !hsluv_white {
-                    let class = if ok_via_xyz && ch * weight <= 5e-4 { "grey_not_neutral:oklab_xyz_matrix_white_mismatch" } else { "grey_not_neutral" };
+                    let class = if mismatch && (ch * weight <= 5e-4 || amplified) { "grey_not_neutral:oklab_xyz_matrix_white_mismatch" } else { "grey_not_neutral" };
                     m.violate(&inst, class, inp(), json!({"color": fvec(&y), "chroma_like": fjson(ch)}), json!({"tolerance": tol_neutral}), "");
                 }
             }
@@ -131,7 +148,7 @@ fn whites_and_neutrals(ctx: &Ctx, report: &mut Report) {
                         _ => 1.0,
                     };
                     if !(spread <= tol_back * slope) || !(off <= 2.0 * tol_back * slope) {
-                        let class = if (ok_via_xyz || (ok_family(dst) && src.anchor() != dst.anchor())) && spread <= 1e-3 * slope { "grey_round_trip_not_grey:oklab_xyz_matrix_white_mismatch" } else { "grey_round_trip_not_grey" };
+                        let class = if mismatch && (spread <= 1e-3 * slope || (amplified && spread <= 2e-2 * slope)) { "grey_round_trip_not_grey:oklab_xyz_matrix_white_mismatch" } else { "grey_round_trip_not_grey" };
                         m.violate(&inst, class, inp(), json!({"there": fvec(&y), "back": fvec(&back)}), json!({"equal_components": g, "tolerance": tol_back * slope}), "");
                     }
                 }
@@ -474,7 +491,10 @@ fn adaptation(ctx: &Ctx, report: &mut Report) {
                     let want_st = model_adapt($cone, nin, Wp::D50.xyz(), c);
                     m.evals(6);
                     let inp = || json!({"white_in": win, "white_out": wout, "xyz": c});
-                    let near = |a: [f64; 3], b: &[f64; 3], t: f64| (0..3).all(|k| (a[k] - b[k]).abs() <= t);
+                    // the 7-digit inverse cone matrix leaves M^-1 M - I ~ 1e-7, which the diagonal gains amplify
+                    let (ls, ld) = (mat_vec($cone, nin), mat_vec($cone, nout));
+                    let amp = (0..3).map(|k| (ld[k] / ls[k]).abs().max((ls[k] / ld[k]).abs())).fold(1.0, f64::max);
+                    let near = |a: [f64; 3], b: &[f64; 3], t: f64| (0..3).all(|k| (a[k] - b[k]).abs() <= t * amp);
                     if !near([got.x, got.y, got.z], &nout, 3e-6) {
                         m.violate("dynamic/f64", concat!($mn, ":dynamic_white_not_mapped_to_normalised_destination_white"), inp(), json!([got.x, got.y, got.z]), fvec(&nout), "");
                     }
@@ -498,7 +518,7 @@ fn adaptation(ctx: &Ctx, report: &mut Report) {
         dynamic!(VonKries, &VON_KRIES, "von_kries");
         dynamic!(UnitMatrix, &IDENT, "xyz_scaling");
     }
-    m.tolerance = Some("2e-6 (f32 6e-6) x colour scale: the hard-coded 7-digit inverse cone matrices leave M^-1 M - I ~ 1e-7; identity between equal static white points bit-exact".into());
+    m.tolerance = Some("2e-6 (f32 6e-6) x colour scale (dynamic whites: x the largest cone gain or its reciprocal): the hard-coded 7-digit inverse cone matrices leave M^-1 M - I ~ 1e-7; identity between equal static white points bit-exact".into());
     m.sample(|| {
         let x: Xyz<wp::D50, f64> = Xyz::<wp::D65, f64>::new(0.95047, 1.0, 1.08883).adapt_into_unclamped();
         json!({"from": "D65 white", "to": "D50", "bradford": [x.x, x.y, x.z], "model": fvec(&model_adapt(&BRADFORD, Wp::D65.xyz(), Wp::D50.xyz(), Wp::D65.xyz()))})
